@@ -53,8 +53,8 @@ CLAIMS = {
   "(listed in evidence notes; DESIGN 10.1), so byte-exact reassembly through the whole chain in one theorem is NOT "
   "claimed - it is the composition of the separately proved CipherReader/UTF8Reader/LimitedReader contracts. "
   "Of the ReadMessage/readData helpers only ReadMessage's collector of intermediate control frames is under contract "
-  "(each collected message owns a fresh copy of exactly the frame's payload); extensions beyond one and the "
-  "OnContinuation/OnIntermediate callbacks of NextFrame are not covered. io.Copy into ioutil.Discard and ioutil.ReadAll "
+  "(each collected message owns a fresh copy of exactly the frame's payload); an OnIntermediate handler is allowed as "
+  "a black box that may consume the control frame; more than one extension and the OnContinuation callback are not covered. io.Copy into ioutil.Discard and ioutil.ReadAll "
   "are trusted contracts."),
  "C05": ("proof",
   "Proof that the first offending header is refused: readHeader+CheckHeader reject exactly the RFC-violating headers, "
